@@ -13,12 +13,15 @@ PROP = dict(
                "per share name must explain exactly who received a copy.",
     level_note="Trusted: as C03.  The finding is kept, not repaired: MQTT defines a shared subscription by ShareName + filter, "
                "the code follows that reading.",
-    engines=[dict(hx="route", args=["c06"], model="route_c06")],
+    engines=[dict(hx="route", args=["c06"], model="route_c06"), dict(hx="route", args=["c06t"], model="route_c06")],
     theorems=["C06_one_per_group", "C06_chosen_served", "C06_not_chosen_nothing", "C06_at_most_one", "C06_modulo_findings",
               "C06_refuted"],
     model_files="coq/Session/Deliver.v",
     rule="histories as for C03 biased to shared subscriptions (1/2 of the subscriptions among $share/g/a/+, $share/h/a/#, "
          "$share/g/a/#, $share/h/a/b, $share/g/+/b; members also hold non-shared subscriptions, some offline).  "
+         "Second stream (c06t, 200 / 8000 histories): share groups whose filter particle holds only the shared subscriptions "
+         "($share/g/a/b, $share/h/x/+, $share/k/y, $share/g/a/b/c/+) while non-shared filters strictly below and above them are "
+         "subscribed / unsubscribed and retained messages are set and cleared below them between the publishes (index trims).  "
          "non-trivial = publish step with at least one matching shared subscription",
     exhaustive=False,
     modelled="topics.go Subscribers.SelectShared/MergeSharedSelected, server.go publishToSubscribers",
